@@ -19,7 +19,7 @@ x/staking/keeper/{delegation,slash}.go, x/staking/types/validator.go); `transfer
 `go/extract/c11.go` reads off that function's AST.
 -/
 namespace FxVerif.Model.C11
-open FxVerif.Gen.C11 (Cfg)
+open FxVerif.Gen.C11 (Cfg Party SE PE Simple Cond Stmt Wrapper)
 
 /-- 10^18: one unit of `LegacyDec` -/
 def ONE : Nat := 1000000000000000000
@@ -41,11 +41,46 @@ def dQuoRoundUp (a b : Nat) : Nat :=
   let q := a * ONE * ONE / b
   if q % ONE = 0 then q / ONE else q / ONE + 1
 
+/-- the state-changing part of `handlerTransferShares` the theorems are proved for: the instruction list
+`go/extract/c11prog.go` produces from the body as it stood when the proofs were written (withdraw the sender's
+rewards; look the recipient up — new: end the period, existing: withdraw its rewards; subtract from the sender's
+copy, remove it with its starting info and reference when it is empty, else store it with a re-derived stake; add to
+the recipient's copy and store it; new recipient: reference the period just ended and start there, existing: store a
+re-derived stake) -/
+def refProg : List Stmt :=
+  [ .s (.withdraw .from_),
+    .s (.getDel .to),
+    .s (.setFlag false),
+    .ite .lookupErr [.setShares .to .zero, .incPeriod] [.setFlag true, .withdraw .to],
+    .s (.readInfo .from_),
+    .s (.setShares .from_ (.sub (.shares .from_) .x)),
+    .ite (.isZero (.shares .from_))
+      [.removeDel .from_, .decRef (.infoPeriod .from_), .deleteInfo .from_]
+      [.setDel .from_, .setStake .from_ (.tfsTrunc (.shares .from_)), .writeInfo .from_ .from_],
+    .s (.setShares .to (.add (.shares .to) .x)),
+    .s (.setDel .to),
+    .ite .notFlag
+      [.readCur, .setPrev (.curMinus 1), .incRef .prev, .setStakeTok (.tfsTrunc .x), .newInfo .to .prev .stakeTok true,
+       .writeInfo .to .to]
+      [.readInfo .to, .setStake .to (.tfsTrunc (.shares .to)), .writeInfo .to .to] ]
+
+/-- how the model reads the five thin wrappers (`State.exec`: `.delegate d v amt` is staking `Delegate` for the
+caller `d` at `args.Validator` with `args.Amount`, …, `.approve owner spender v shares` sets the allowance of the
+caller); a failing SDK call fails the transaction (`step` reverts) -/
+def wrappersRef : List Wrapper :=
+  [ ⟨"DelegateV2Method", "stakingMsgServer.Delegate", "caller", "args.Validator", "", "args.Amount", true, true⟩,
+    ⟨"UndelegateV2Method", "stakingMsgServer.Undelegate", "caller", "args.Validator", "", "args.Amount", true, true⟩,
+    ⟨"RedelegateMethodV2", "stakingMsgServer.BeginRedelegate", "caller", "args.ValidatorSrc", "args.ValidatorDst", "args.Amount",
+      true, true⟩,
+    ⟨"WithdrawMethod", "distrMsgServer.WithdrawDelegatorReward", "caller", "args.Validator", "", "", true, true⟩,
+    ⟨"ApproveSharesMethod", "stakingKeeper.SetAllowance", "caller", "args.Validator", "args.Spender", "args.Shares", true, true⟩ ]
+
 /-- what the property needs of the code facts -/
 def good (c : Cfg) : Bool :=
   c.selfGuard && c.refuseRecvRedel && c.sharesCmp == "LT" && c.withdrawFrom && c.toLookupBeforeFromWrite &&
   c.withdrawTo && c.incPeriodForNewTo && c.decRefOnRemoval && c.delInfoOnRemoval && c.incRefForNewTo &&
-  c.newToPeriodOffset == 1 && c.allowanceCheck && c.allowanceSubDecrease && c.transferFromArgs && c.sharesPositive
+  c.newToPeriodOffset == 1 && c.allowanceCheck && c.allowanceSubDecrease && c.transferFromArgs && c.sharesPositive &&
+  c.prog == refProg && c.wrappers == wrappersRef
 
 inductive Err
   | noValidator | noDelegation | recvRedel | insufficient | allowance | badArgs
@@ -57,6 +92,7 @@ inductive Err
   | noStartInfo        -- delegation without starting info
   | negShares          -- shares would go negative
   | sdk                -- an ordinary, documented SDK refusal (max entries, bad amount, transitive redelegation, …)
+  | unsupported        -- the translator met a statement / expression of handlerTransferShares it does not know
 deriving Repr, DecidableEq, Inhabited
 
 /-- failures of the hand-edited / F1 bookkeeping (never acceptable) as opposed to ordinary refusals -/
@@ -193,6 +229,25 @@ def VS.initDelegation (v : VS) (h d : Nat) : Except Err VS :=
     | none => .error .noDelegation
     | some sh => .ok { v1 with sinfo := setAt v1.sinfo d (some ⟨v1.period - 1, v1.tokensFromSharesTrunc sh, h⟩) }
 
+/-- the read-only precompile method `delegationRewards(val, del)`: on a branch of the store, end the period and
+calculate the delegator's rewards, truncated to whole coins; no delegation: 0 -/
+def VS.pendingRewards (v : VS) (h d : Nat) : Except Err Nat :=
+  match v.del d with
+  | none => .ok 0
+  | some sh =>
+    match v.incPeriod v.tokens with
+    | .error e => .error e
+    | .ok (v1, ending) =>
+      match v1.calcRewards h d sh ending with
+      | .ok raw => .ok (raw / ONE)
+      | .error e => .error e
+
+/-- the read-only precompile method `delegation(val, del)`: whole shares and their token worth -/
+def VS.delegationView (v : VS) (d : Nat) : Nat × Nat :=
+  match v.del d with
+  | none => (0, 0)
+  | some sh => (sh / ONE, v.tokensFromShares sh / ONE)
+
 /-- keeper `WithdrawDelegationRewards` = withdraw + re-initialise (what the `withdraw` precompile method and
 `handlerTransferShares` call through the distribution message server) -/
 def VS.withdrawMsg (v : VS) (h d : Nat) : Except Err (VS × Nat) :=
@@ -295,57 +350,152 @@ def cmpShares (name : String) (a b : Nat) : Bool :=
   else if name == "GTE" then decide (b ≤ a)
   else false
 
-/-- sender side of `handlerTransferShares` ("update from delegate, delete it if shares zero"); `v` is the stale
-validator object read at the start, `fsh` the stale copy of the sender's shares -/
-def VS.xferFrom (c : Cfg) (v v2 : VS) (from_ fsh X : Nat) : Except Err VS :=
+/-! ### the body of `handlerTransferShares` after the guards: an interpreter for the regenerated instruction list -/
+
+/-- the inputs that stay fixed while the body runs: the validator object read at the start (stale afterwards), block
+height, the two parties, `X` = `LegacyNewDecFromBigInt(sharesInt)` -/
+structure Env where
+  v0 : VS
+  h : Nat
+  from_ : Nat
+  to : Nat
+  X : Nat
+
+/-- the stores plus the Go function's local variables -/
+structure Loc where
+  vs : VS
+  fromDel : Nat                 -- fromDel.Shares (local copy)
+  toDel : Nat := 0              -- toDel.Shares (local copy)
+  lookupErr : Bool := false     -- `err != nil` of the last GetDelegation
+  flag : Bool := false          -- toDelFound
+  fromInfo : SInfo := ⟨0, 0, 0⟩
+  toInfo : SInfo := ⟨0, 0, 0⟩
+  curPeriod : Nat := 0          -- validatorCurrentRewards.Period
+  prev : Nat := 0               -- previousPeriod
+  stakeTok : Nat := 0           -- stakeToken
+  rf : Nat := 0                 -- reward coins paid to `from`
+  rt : Nat := 0                 -- reward coins paid to `to`
+
+def Env.addr (e : Env) : Party → Nat
+  | .from_ => e.from_
+  | .to => e.to
+
+def Loc.del (l : Loc) : Party → Nat
+  | .from_ => l.fromDel
+  | .to => l.toDel
+
+def Loc.info (l : Loc) : Party → SInfo
+  | .from_ => l.fromInfo
+  | .to => l.toInfo
+
+def Loc.setDel (l : Loc) : Party → Nat → Loc
+  | .from_, x => { l with fromDel := x }
+  | .to, x => { l with toDel := x }
+
+def Loc.setInfo (l : Loc) : Party → SInfo → Loc
+  | .from_, x => { l with fromInfo := x }
+  | .to, x => { l with toInfo := x }
+
+def evalSE (e : Env) (l : Loc) : SE → Except Err Nat
+  | .x => .ok e.X
+  | .zero => .ok 0
+  | .stakeTok => .ok l.stakeTok
+  | .shares p => .ok (l.del p)
+  | .stake p => .ok (l.info p).stake
+  | .add a b =>
+    match evalSE e l a, evalSE e l b with
+    | .ok x, .ok y => .ok (x + y)
+    | .error x, _ => .error x
+    | _, .error y => .error y
+  | .sub a b =>
+    match evalSE e l a, evalSE e l b with
+    | .ok x, .ok y => if x < y then .error .negShares else .ok (x - y)
+    | .error x, _ => .error x
+    | _, .error y => .error y
+  | .tfs a => match evalSE e l a with | .ok x => .ok (e.v0.tokensFromShares x) | .error x => .error x
+  | .tfsTrunc a => match evalSE e l a with | .ok x => .ok (e.v0.tokensFromSharesTrunc x) | .error x => .error x
+  | .truncInt a => match evalSE e l a with | .ok x => .ok (x / ONE * ONE) | .error x => .error x
+  | .unknown _ => .error .unsupported
+
+def evalPE (l : Loc) : PE → Except Err Nat
+  | .infoPeriod p => .ok (l.info p).period
+  | .prev => .ok l.prev
+  | .curMinus k => .ok (l.curPeriod - k)
+  | .unknown _ => .error .unsupported
+
+def execSimple (e : Env) (l : Loc) : Simple → Except Err Loc
+  | .withdraw p =>
+    match l.vs.withdrawMsg e.h (e.addr p) with
+    | .error x => .error x
+    | .ok (v, c) =>
+      match p with
+      | .from_ => .ok { l with vs := v, rf := l.rf + c }
+      | .to => .ok { l with vs := v, rt := l.rt + c }
+  | .getDel p =>
+    match l.vs.del (e.addr p) with
+    | some sh => .ok { l.setDel p sh with lookupErr := false }
+    | none => .ok { l.setDel p 0 with lookupErr := true }
+  | .incPeriod =>
+    match l.vs.incPeriod e.v0.tokens with
+    | .error x => .error x
+    | .ok (v, _) => .ok { l with vs := v }
   -- `GetDelegatorStartingInfo` of an absent key yields the zero value, not an error
-  let fsi := (v2.sinfo from_).getD ⟨0, 0, 0⟩
-  if fsh < X then .error .negShares else
-  if fsh - X = 0 then
-    let a : VS := { v2 with del := setAt v2.del from_ none }
-    match (if c.decRefOnRemoval then a.decRef fsi.period else .ok a) with
-    | .error e => .error e
-    | .ok b => .ok (if c.delInfoOnRemoval then { b with sinfo := setAt b.sinfo from_ none } else b)
-  else
-    .ok { v2 with del := setAt v2.del from_ (some (fsh - X)),
-                  sinfo := setAt v2.sinfo from_ (some { fsi with stake := v.tokensFromSharesTrunc (fsh - X) }) }
+  | .readInfo p => .ok (l.setInfo p ((l.vs.sinfo (e.addr p)).getD ⟨0, 0, 0⟩))
+  | .readCur => .ok { l with curPeriod := l.vs.period }
+  | .setShares p ex => match evalSE e l ex with | .ok n => .ok (l.setDel p n) | .error z => .error z
+  | .setStake p ex => match evalSE e l ex with | .ok n => .ok (l.setInfo p { l.info p with stake := n }) | .error z => .error z
+  | .setInfoPeriod p ex => match evalPE l ex with | .ok n => .ok (l.setInfo p { l.info p with period := n }) | .error z => .error z
+  | .setFlag b => .ok { l with flag := b }
+  | .setPrev ex => match evalPE l ex with | .ok n => .ok { l with prev := n } | .error z => .error z
+  | .setStakeTok ex => match evalSE e l ex with | .ok n => .ok { l with stakeTok := n } | .error z => .error z
+  | .newInfo p pe se hb =>
+    match evalPE l pe, evalSE e l se with
+    | .ok a, .ok b => .ok (l.setInfo p ⟨a, b, if hb then e.h else 0⟩)
+    | .error z, _ => .error z
+    | _, .error z => .error z
+  | .removeDel p => .ok { l with vs := { l.vs with del := setAt l.vs.del (e.addr p) none } }
+  | .setDel p => .ok { l with vs := { l.vs with del := setAt l.vs.del (e.addr p) (some (l.del p)) } }
+  | .decRef ex =>
+    match evalPE l ex with
+    | .error z => .error z
+    | .ok n => match l.vs.decRef n with | .ok v => .ok { l with vs := v } | .error z => .error z
+  | .incRef ex =>
+    match evalPE l ex with
+    | .error z => .error z
+    | .ok n => match l.vs.incRef n with | .ok v => .ok { l with vs := v } | .error z => .error z
+  | .deleteInfo p => .ok { l with vs := { l.vs with sinfo := setAt l.vs.sinfo (e.addr p) none } }
+  | .writeInfo p src => .ok { l with vs := { l.vs with sinfo := setAt l.vs.sinfo (e.addr p) (some (l.info src)) } }
+  | .unknown _ => .error .unsupported
 
-/-- recipient side ("update to delegate, set starting info if to not delegate before"); `toDel0` is the stale
-copy of the recipient's delegation looked up earlier -/
-def VS.xferTo (c : Cfg) (v v3 : VS) (h to X : Nat) (toDel0 : Option Nat) : Except Err VS :=
-  let base := if c.toLookupBeforeFromWrite then toDel0.getD 0 else (v3.del to).getD 0
-  let tsh := base + X
-  let v4 : VS := { v3 with del := setAt v3.del to (some tsh) }
-  match toDel0 with
-  | none =>
-    let p := v4.period - c.newToPeriodOffset
-    match (if c.incRefForNewTo then v4.incRef p else .ok v4) with
-    | .error e => .error e
-    | .ok v5 => .ok { v5 with sinfo := setAt v5.sinfo to (some ⟨p, v.tokensFromSharesTrunc X, h⟩) }
-  | some _ =>
-    let tsi := (v4.sinfo to).getD ⟨0, 0, 0⟩
-    .ok { v4 with sinfo := setAt v4.sinfo to (some { tsi with stake := v.tokensFromSharesTrunc tsh }) }
+def execSimples (e : Env) : List Simple → Loc → Except Err Loc
+  | [], l => .ok l
+  | x :: xs, l => match execSimple e l x with | .ok l' => execSimples e xs l' | .error z => .error z
 
-/-- recipient lookup ("get to delegation"): new recipient → `IncrementValidatorPeriod(ctx, validator)` with the
-stale validator object, existing recipient → its rewards are withdrawn; returns reward coins paid to `to` -/
-def VS.xferLookup (c : Cfg) (v v1 : VS) (h to : Nat) : Except Err (VS × Nat) :=
-  match v1.del to with
-  | none =>
-    if c.incPeriodForNewTo then
-      match v1.incPeriod v.tokens with
-      | .error e => .error e
-      | .ok (v2, _) => .ok (v2, 0)
-    else .ok (v1, 0)
-  | some _ => if c.withdrawTo then v1.withdrawMsg h to else .ok (v1, 0)
+def evalCond (e : Env) (l : Loc) : Cond → Except Err Bool
+  | .lookupErr => .ok l.lookupErr
+  | .flag => .ok l.flag
+  | .notFlag => .ok (!l.flag)
+  | .isZero ex => match evalSE e l ex with | .ok n => .ok (n == 0) | .error z => .error z
+  | .unknown _ => .error .unsupported
 
-/-- the state-changing part of `handlerTransferShares` (after the guards): withdraw the sender's rewards, look up
-the recipient (the copy is kept, as in the Go code), rewrite the sender's side, rewrite the recipient's side -/
+def execStmt (e : Env) (l : Loc) : Stmt → Except Err Loc
+  | .s x => execSimple e l x
+  | .ite c a b =>
+    match evalCond e l c with
+    | .ok true => execSimples e a l
+    | .ok false => execSimples e b l
+    | .error z => .error z
+
+def interp (e : Env) : List Stmt → Loc → Except Err Loc
+  | [], l => .ok l
+  | x :: xs, l => match execStmt e l x with | .ok l' => interp e xs l' | .error z => .error z
+
+/-- the state-changing part of `handlerTransferShares` (after the guards): the regenerated instruction list run on
+the stores with `fromDel` = the copy of the sender's delegation read by the guards -/
 def VS.xferCore (c : Cfg) (v : VS) (h from_ to fsh X : Nat) : Except Err (VS × Nat × Nat) :=
-  (if c.withdrawFrom then v.withdrawMsg h from_ else .ok (v, 0)) >>= fun r1 =>
-  VS.xferLookup c v r1.1 h to >>= fun r2 =>
-  VS.xferFrom c v r2.1 from_ fsh X >>= fun v3 =>
-  VS.xferTo c v v3 h to X (r1.1.del to) >>= fun v4 =>
-  pure (v4, r1.2, r2.2)
+  match interp ⟨v, h, from_, to, X⟩ c.prog { vs := v, fromDel := fsh } with
+  | .ok l => .ok (l.vs, l.rf, l.rt)
+  | .error z => .error z
 
 /-- `handlerTransferShares(ctx, evm, valAddr, from, to, shares)`; `recv` = the sender has an incoming redelegation
 at this validator; `X` = `LegacyNewDecFromBigInt(shares)` (whole shares × 10^18); result: new state, reward coins
@@ -451,8 +601,8 @@ def State.exec (c : Cfg) (s : State) : Op → Except Err State
         | .error e => .error e
         | .ok (vdst, r2) =>
           let s1 := (((s.setVS src vsrc).setVS dst vdst).addGain d r1).addGain d r2
-          .ok { s1 with redel := if s1.redel.contains (d, src, dst, s.height) then s1.redel
-                                 else s1.redel ++ [(d, src, dst, s.height)] }
+          -- `Redelegation.AddEntry` always appends (only `UnbondingDelegation.AddEntry` merges entries of one block)
+          .ok { s1 with redel := s1.redel ++ [(d, src, dst, s.height)] }
   | .withdraw d v =>
     if !(s.okAcc d && s.okVal v) then .error .badArgs else
     match (s.vs v).withdrawMsg s.height d with
